@@ -1,5 +1,6 @@
 (* Prelude: byte strings, hex literals, outcome monad.  Definitions only. *)
-From Coq Require Export List Bool Arith ZArith NArith Lia String Ascii.
+From Coq Require Export String Ascii.
+From Coq Require Export List Bool Arith ZArith NArith Lia.
 From Coq.Strings Require Export Byte.
 Export ListNotations.
 Open Scope bool_scope.
